@@ -33,7 +33,7 @@ def run(ctx, rep):
     for c in dedup_sites:
         ok = any(expr_wraps_call(e, t.bb) and tr for e, tr, _ in bool_literals_at(b, c.bb))
         rep.ob('R18.a', sf.APPEND, short(c.name) + ' only for a new id', ok, c.where(), 'control-dependent on try_insert==true' if ok else 'a message whose id is already known still gets an offset / is stored')
-    key = canon(b.pexpr_operand(t.args[1]), 0, 1)
+    key = canon(b.pexpr_operand(t.args[1], 0, frozenset(), (t.bb, "t")), 0, 1)
     rep.ob('R18.a', sf.APPEND, 'checked id = message id', key.endswith('.id'), t.where(), 'try_insert(%s)' % key)
     sel = any(render(e).endswith('message_deduplicator') and vals == [1] for e, vals, _ in discr_literals_at(b, t.bb))
     rep.ob('R18.a', sf.APPEND, 'branch selected by Some(deduplicator)', sel, t.where(), None if sel else 'the deduplicating loop is not selected by the presence of the deduplicator')
@@ -51,7 +51,7 @@ def run(ctx, rep):
     rep.rule('R18.e', 'a dropped duplicate consumes no offset: in the deduplicating loop the offset of a kept message is base + (number of messages kept so far), the counter being incremented once, on the kept path only', floor=3, analysis='A10+A2')
     dn = [c for c in news if b.dominates(t.bb, c.bb) and is_user_call(c)]
     for c in dn:
-        f = canon(b.pexpr_operand(c.args[0]))
+        f = canon(b.pexpr_operand(c.args[0], 0, frozenset(), (c.bb, "t")))
         ok = f == '(phi{($u32 + 1) | 0} + phi{(1 + self.current_offset) | 0})'
         rep.ob('R18.e', sf.APPEND, 'offset of a kept message', ok, c.where(), 'offset = %s' % f if ok else
                'the offset of a kept message is `%s`, not base + count of kept messages: a dropped duplicate can consume an offset' % f)
@@ -72,7 +72,7 @@ def run(ctx, rep):
         rep.ob('R18.e', sf.APPEND, 'counter incremented once, only for a kept message', len(here) == 1 and len(kept) == 1, b.where(here[0]) if here else None,
                'one increment, control-dependent on try_insert==true' if len(here) == 1 and len(kept) == 1 else 'the kept-message counter has %d increments in the deduplicating loop, %d of them on the kept path' % (len(here), len(kept)))
         # the counter feeding the offset is that counter and nothing else advances per iteration (an enumerate index would)
-        base_cnt = [c for c in dn if 'enumerate' in canon(b.pexpr_operand(c.args[0]), 0, 3).lower()]
+        base_cnt = [c for c in dn if 'enumerate' in canon(b.pexpr_operand(c.args[0], 0, frozenset(), (c.bb, "t")), 0, 3).lower()]
         rep.ob('R18.e', sf.APPEND, 'offset does not use the position in the incoming batch', not base_cnt, base_cnt[0].where() if base_cnt else None,
                None if not base_cnt else 'the offset is derived from the position of the message in the incoming batch, which also counts dropped duplicates')
 
